@@ -120,17 +120,24 @@ class Proj:
         cwd = cwd or self.root
         self.commands.append("(cd %s && zinoma %s)" % (os.path.relpath(cwd, self.dir), " ".join(args)))
         t0 = time.time()
-        p = subprocess.Popen([self.binary] + list(args), cwd=cwd, env=self.env(), stdout=subprocess.PIPE, stderr=subprocess.STDOUT, start_new_session=True)
+        # output goes to a file, not a pipe: a grandchild that outlives zinoma (the `sleep` of a killed service shell)
+        # would otherwise keep the pipe open and make a finished run look like a hang
+        self._nrun = getattr(self, "_nrun", 0) + 1
+        outp = os.path.join(self.dir, "run.%d.out" % self._nrun)
+        with open(outp, "wb") as fo:
+            p = subprocess.Popen([self.binary] + list(args), cwd=cwd, env=self.env(), stdout=fo, stderr=subprocess.STDOUT, start_new_session=True)
         try:
-            out, _ = p.communicate(timeout=timeout)
+            p.wait(timeout=timeout)
             to = False
         except subprocess.TimeoutExpired:
             to = True
-            try:
-                os.killpg(p.pid, signal.SIGKILL)
-            except OSError:
-                pass
-            out, _ = p.communicate()
+        try:
+            os.killpg(p.pid, signal.SIGKILL)   # whatever is left of the group (also after a normal exit)
+        except OSError:
+            pass
+        if to:
+            p.wait()
+        out = open(outp, "rb").read()
         return Res(p.returncode, out.decode("utf-8", "replace"), time.time() - t0, to)
 
     def spawn(self, *args, cwd=None):
